@@ -7,6 +7,7 @@ import (
 	"sync"
 	"sync/atomic"
 	"time"
+	"verifharness/vnet"
 
 	"github.com/bartossh/Computantis/src/accountant"
 	"github.com/bartossh/Computantis/src/spice"
@@ -933,6 +934,83 @@ func c08DropUnderReaders(w *core.WorkerCtx) {
 	}
 }
 
+// c08CrossTrafficWhileJoining: two serving nodes forward an item to each other at the same moment while a new node
+// joins each of them (a write to the peer table that every forward reads). Every gossip-add and every join must
+// return; two real nodes wired by the virtual network, the harness only decides when the two messages are handed over.
+func c08CrossTrafficWhileJoining(w *core.WorkerCtx) {
+	r := w.R
+	adj := [][]int{{1}, {0}, {}, {}}
+	rounds := w.Pick(3, 12)
+	for round := 0; round < rounds; round++ {
+		net, err := vnet.Build(4, adj, -1)
+		if err != nil {
+			r.Inconc("cannot build network: " + err.Error())
+			return
+		}
+		kind := []string{"trx", "vrx"}[round%2]
+		desc := fmt.Sprintf("c08 cross traffic while joining: nodes 0 and 1 each originate a %s, nodes 2 and 3 join them meanwhile (round %d)", kind, round)
+		w.Mark("%s", desc)
+		net.ResetExecution()
+		_, e0 := c11Originate(net, 0, kind, 9000+2*round)
+		_, e1 := c11Originate(net, 1, kind, 9001+2*round)
+		if e0 != nil || e1 != nil {
+			r.Note("cross traffic: items could not be created")
+			net.Close()
+			continue
+		}
+		net.WaitStable(6)
+		done := make(chan struct{})
+		go func() {
+			defer close(done)
+			var wg sync.WaitGroup
+			// the joins
+			for _, pr := range [][2]int{{0, 2}, {1, 3}} {
+				wg.Add(1)
+				go func(a, b int) { defer wg.Done(); net.Connect(a, b) }(pr[0], pr[1])
+			}
+			time.Sleep(time.Duration(200+100*round) * time.Microsecond)
+			// both messages handed over at once (two handlers run concurrently, as in two servers)
+			for _, m := range net.Pending() {
+				wg.Add(1)
+				go func(m *vnet.Msg) { defer wg.Done(); net.Deliver(m) }(m)
+			}
+			wg.Wait()
+			// whatever the new peers are sent now
+			for k := 0; k < 50; k++ {
+				net.WaitStable(3)
+				p := net.Pending()
+				if len(p) == 0 {
+					break
+				}
+				for _, m := range p {
+					wg.Add(1)
+					go func(m *vnet.Msg) { defer wg.Done(); net.Deliver(m) }(m)
+				}
+				wg.Wait()
+			}
+		}()
+		wedged := false
+		select {
+		case <-done:
+		case <-time.After(25 * time.Second):
+			wedged = true
+			sig, detail := gmon.Signature()
+			if sig == "" {
+				r.Inconc("watchdog fired on " + desc + " without a recognisable goroutine signature")
+			} else {
+				r.Violate("C08", "wedged/"+sig, fmt.Sprintf("%s: the gossip-adds and joins did not return; goroutine states: %s\n%s", desc, sig, detail), nil)
+			}
+		}
+		r.Eval(1)
+		r.Count("c08_cross_traffic_join_rounds", 1)
+		r.Nontriv(fmt.Sprintf("cross-traffic-while-joining/%s/wedged=%v", kind, wedged))
+		if wedged {
+			return // never wait for a wedged network
+		}
+		net.Close()
+	}
+}
+
 func c08Worker(w *core.WorkerCtx) {
 	maxN := w.Pick(7, 40)
 	switch w.Batch % 4 {
@@ -948,6 +1026,7 @@ func c08Worker(w *core.WorkerCtx) {
 		c08RetryExhaustion(w)
 		c08TruncateUnderLoad(w)
 		c08DropUnderReaders(w)
+		c08CrossTrafficWhileJoining(w)
 		c08AsyncCancel(w)
 	}
 }
